@@ -172,7 +172,15 @@ func newSumm(p *Prog, depth int) *Summ {
 	if p.guardHelpers == nil {
 		p.guardHelpers = findGuardHelpers(p)
 	}
-	return &Summ{P: p, Ix: p.Index(), MaxDepth: depth, MaxPaths: 4096, NoInline: map[string]bool{},
+	ni := map[string]bool{}
+	// the action guard is an anchor of the rules (an atom CheckAction(recv, "x")): it stays a call
+	// whatever its body looks like (a loop today, slices.Contains tomorrow)
+	for _, fn := range p.Funcs {
+		if fn.Name() == "CheckAction" && fn.Signature.Recv() != nil && fn.Pkg != nil && shortPkg(fn.Pkg.Pkg.Path()) == "pokerface" {
+			ni[fnKey(fn)] = true
+		}
+	}
+	return &Summ{P: p, Ix: p.Index(), MaxDepth: depth, MaxPaths: 4096, NoInline: ni,
 		EngineAliases: true, loopsOf: map[*ssa.Function][]*Loop{}, NilFns: p.nilFns, AlwaysInline: p.guardHelpers}
 }
 
